@@ -139,6 +139,14 @@ CHECKS = {
              "run by rustc-checked acceptance, type_name-checked OutputKind and co-executed values of generated #[unimock] programs.",
         design_ref="DESIGN.md section 7, C17",
         technique="Coq proof (structural induction over the kind tree) + generated-program co-execution against the real macros; rustc probes for the acceptance boundary"),
+    "C19": dict(
+        text="Machine-checked theorems (Props/C19.v) about a Coq model of debug_inputs (deref chain + ProperDebug/NoDebug method probing), the matching! pat_debug / diagnostics arm and "
+             "MockError Display: for every arity the message starts with `Trait::method(d1, .., dn)` in declaration order with `?` iff no Debug and separators exactly between arguments; every "
+             "error names the method; a pattern is named `text at file:line`; for guard-free single-alternative patterns the mismatch positions are exactly { i | sub-pattern i rejects }, "
+             "independent per position, each with the argument's rendering (wildcards count as positions). Tied to /repo by generated traits and matching! invocations at known lines, compiled "
+             "with the real macros for every error kind and compared on parsed components (call path, argument list, pattern text/file:line or index, mismatch positions and values).",
+        design_ref="DESIGN.md section 7, C19",
+        technique="Coq proof (rendering lemmas by induction over argument lists / sub-patterns) + generated-program co-execution against the real macros"),
 }
 
 NOT_YET = "check not built yet (work in progress in this session; designed in DESIGN.md section 7)"
